@@ -173,7 +173,7 @@ def run(c, a):
         return events
     # phase 0: the sentinel alone (cheap under both arithmetics) tells which growth arithmetic the tree has, and with it
     # which probes fit the memory limit
-    sentinel[0]["big"] = False
+    sentinel[0]["big"] = True      # on the repaired tree it allocates ~1 GB: generous bounds (slow is not a verdict)
     events = probe(sentinel, "s")
     s_res = [e for e in events if e["ev"] == "Result"]
     wraps = bool(s_res) and s_res[0].get("result") == "rejected" and bool(s_res[0].get("panic"))
